@@ -46,6 +46,11 @@ class TheCheck(TreeCheck):
         for k in list(range(251, 258)) + ([507, 508, 509, 510, 511, 512] if big else [509, 510]):
             ops += ["new 0"] + ["put %s 76" % hexs(b"w%02d" % i) for i in range(6)] + ["walk"]
             ops += ["cursor0", "next"] * k + ["walk", "put 7a 76", "walk"]
+            # the same with keys inserted between the stamped ones after the first walk (rotations
+            # lift fresh, unstamped nodes above stamped ones before the counter wraps)
+            ops += ["new 0"] + ["put %s 76" % hexs(b"w%02d" % i) for i in (10, 5, 20, 15, 30)] + ["walk"]
+            ops += ["put %s 77" % hexs(b"w%02d" % i) for i in (7, 12, 17, 25, 3)]
+            ops += ["cursor0", "next"] * k + ["walk"]
         sts.append(Stream("wrap-probes", ops, history=True))
         sts.append(Stream("random", self.random_history(700 if not big else 8000, 30 if not big else 300, 0,
                                                         ops=("put", "put", "rm", "walk", "abandon", "fullnext", "near"), quiet=False if not big else True), history=True))
